@@ -128,6 +128,73 @@ def check_elitism(h: Harness):
         h.agree("sort_population", ["sort", pop], [i.genotype[0] for i in out], nontrivial=n >= 2)
 
 
+def check_problem_turnover(h: Harness):
+    """the same individuals ranked under one problem, which is then dropped (garbage-collected), and under a NEW problem
+    with the opposite direction -- a new object that the allocator may place where the old one was"""
+    import gc
+    rng = h.rng
+    for trial in range(h.n(20, 200)):
+        n = rng.randint(3, 8)
+        vals = [rng.randint(-5, 5) for _ in range(n)]
+        rep = StubRep(1)
+        inds = [Individual((i, v, (v,)), rep) for i, v in enumerate(vals)]
+        first_min = rng.random() < 0.5
+        for stage in range(3):
+            minimize = first_min if stage % 2 == 0 else not first_min
+            problem = SingleObjectiveProblem(lambda p: p[1], minimize=minimize)
+            k = rng.randint(1, n - 1)
+            res = sc.run_step(ElitismStep(), problem, rep, TwoStreamSource([]), list(inds), k)
+            pop = [[i, (-v if minimize else v), [v]] for i, v in enumerate(vals)]
+            replay = {"values": vals, "k": k, "stage": stage, "minimize": minimize}
+            h.count("elitism:problem-turnover")
+            h.seen(f"turnover:{trial}:{stage}", nontrivial=stage > 0)
+            if isinstance(res, str):
+                h.fail("ElitismStep.apply", "raises", f"stage {stage}: {res}", replay)
+            else:
+                out = [[i.genotype[0], (-i.genotype[1] if minimize else i.genotype[1]), [i.genotype[1]]] for i in res]
+                h.holds("ElitismStep.apply", "not-top-k", ["prop_topk", pop, k, out],
+                        f"stage {stage + 1} of 3 on the same individuals (values {vals}), each stage under a NEW SingleObjectiveProblem(minimize={minimize}) created "
+                        f"after the previous one was dropped: the elite of {k} has values {[i.genotype[1] for i in res]}", replay)
+            del problem
+            gc.collect()
+
+
+def check_infinite_fitness(h: Harness):
+    """fitness values at the ends of the number line: an infinitely GOOD individual (inf when maximising, -inf when
+    minimising) must be in every non-empty elite, an infinitely bad one only when nothing else is left.  Judged by the
+    same predicate with the infinities mapped to integers beyond all other values."""
+    rng = h.rng
+    inf = float("inf")
+    BIG = 10**9
+    for trial in range(h.n(60, 600)):
+        n = rng.randint(2, 9)
+        kind = rng.choice(["max", "min"])
+        vals = [float(rng.randint(-3, 3)) for _ in range(n)]
+        for j in rng.sample(range(n), rng.randint(1, min(2, n))):
+            vals[j] = rng.choice([inf, -inf])
+        rep = StubRep(1)
+        problem = SingleObjectiveProblem(lambda p: p[1], minimize=(kind == "min"))
+        inds = [Individual((i, v, (v,)), rep) for i, v in enumerate(vals)]
+        k = rng.randint(1, n)
+        form = rng.choice(FORMS)
+        res = sc.run_step(ElitismStep(), problem, rep, TwoStreamSource([]), sc.as_form(form, inds, problem), k)
+
+        def agg(v):
+            a = -v if kind == "min" else v
+            return BIG if a == inf else (-BIG if a == -inf else int(a))
+        pop = [[i, agg(v), [0]] for i, v in enumerate(vals)]
+        replay = {"values": [repr(v) for v in vals], "k": k, "form": form, "direction": kind}
+        h.count("elitism:infinite-fitness")
+        h.seen(f"inf:{trial}", nontrivial=True)
+        if isinstance(res, str):
+            h.fail("ElitismStep.apply", "raises", f"ElitismStep.apply [{kind}] on values {replay['values']}, target_size={k}: {res}", replay)
+            continue
+        out = [[i.genotype[0], agg(i.genotype[1]), [0]] for i in res]
+        h.holds("ElitismStep.apply", "not-top-k", ["prop_topk", pop, k, out],
+                f"ElitismStep.apply [{kind}] on values {replay['values']} given as a {form}, target_size={k}, returned the individuals with values "
+                f"{[repr(i.genotype[1]) for i in res]}: an excluded individual is strictly better than an included one", replay)
+
+
 # ----------------------------------------------------------------------------------------
 # runs
 # ----------------------------------------------------------------------------------------
@@ -282,5 +349,7 @@ def check_elitism_beside_other_branches(h: Harness):
 def run(h: Harness):
     check_elitism_beside_other_branches(h)
     check_elitism(h)
+    check_infinite_fitness(h)
+    check_problem_turnover(h)
     check_runs_stub(h)
     check_runs_tree(h)
